@@ -83,8 +83,22 @@ def strip_comments(src):
 
 
 def theorem_names(path):
+    """fully qualified names of the public theorems of a Lean file (namespace tracking; `private` ones are reached through the public ones)"""
     src = strip_comments(open(path).read())
-    return re.findall(r'^\s*theorem\s+([A-Za-z0-9_.\']+)', src, flags=re.M)
+    stack, out = [], []
+    for line in src.splitlines():
+        m = re.match(r'^\s*namespace\s+([A-Za-z0-9_.]+)', line)
+        if m:
+            stack.append(m.group(1))
+            continue
+        m = re.match(r'^\s*end\s+([A-Za-z0-9_.]+)\s*$', line)
+        if m and stack and stack[-1] == m.group(1):
+            stack.pop()
+            continue
+        m = re.match(r'^\s*(?:@\[[^\]]*\]\s*)?(private\s+|protected\s+)?theorem\s+([A-Za-z0-9_.\']+)', line)
+        if m and not (m.group(1) or '').startswith('private'):
+            out.append('.'.join(stack + [m.group(2)]))
+    return out
 
 
 def lean_sources():
@@ -121,7 +135,7 @@ def proof_stage(ctx):
     with open(audit, 'w') as f:
         f.write(f'import {mod}\n')
         for n in names:
-            f.write(f'#print axioms Graphrs.{n}\n')
+            f.write(f'#print axioms {n}\n')
     rc, out = sh(['lake', 'env', 'lean', audit], cwd=LEAN, timeout=1800)
     if rc != 0:
         pr['problems'].append('axiom audit failed to run:\n' + out[-2000:])
@@ -133,7 +147,7 @@ def proof_stage(ctx):
     for m in re.finditer(r"'([^']+)' does not depend on any axioms", out):
         found[m.group(1)] = []
     for n in names:
-        full = 'Graphrs.' + n
+        full = n
         if full not in found:
             pr['problems'].append(f'no axiom report for {full}')
             continue
